@@ -3,13 +3,13 @@ package props
 import (
 	"bytes"
 	"fmt"
+	"github.com/fxamacker/cbor/v2"
 	"io"
 
 	"github.com/taurusgroup/multi-party-sig/pkg/party"
 	"github.com/taurusgroup/multi-party-sig/pkg/protocol"
 	"github.com/taurusgroup/multi-party-sig/pkg/taproot"
 	"github.com/taurusgroup/multi-party-sig/verif/fw"
-	"github.com/taurusgroup/multi-party-sig/verif/mut"
 	"github.com/taurusgroup/multi-party-sig/verif/scen"
 	"github.com/taurusgroup/multi-party-sig/verif/sim"
 )
@@ -53,14 +53,14 @@ func nonceCommitments(c *fw.Ctx, id party.ID, mk scen.Mk, label, mode string) (D
 	msgs := n.Call(node, func() {})
 	for _, m := range msgs {
 		if m.Broadcast && m.RoundNumber == 2 {
-			t, derr := mut.Decode(m.Data)
-			if derr != nil {
+			// (a plain decode: the structure-aware decoder of package mut would descend into a point whose
+			// 33 bytes happen to parse as an encoding of their own - seen in 6 of 60000 thorough cases)
+			var t map[string][]byte
+			if derr := cbor.Unmarshal(m.Data, &t); derr != nil {
 				return nil, nil, derr
 			}
-			d, ok1 := mut.Get(t, mut.Path{"D_i"})
-			e, ok2 := mut.Get(t, mut.Path{"E_i"})
-			db, _ := d.([]byte)
-			eb, _ := e.([]byte)
+			db, ok1 := t["D_i"]
+			eb, ok2 := t["E_i"]
 			if !ok1 || !ok2 || len(db) != 33 || len(eb) != 33 {
 				scen.Fatalf("C11: cannot find D_i/E_i in the round-2 broadcast (fields renamed?): %x -> %#v", m.Data, t)
 			}
